@@ -145,6 +145,16 @@ def replay_fsc(cex):
                 _, sc = fourier_shell_correlation(a * g0, b * g1, dfreq)
                 if not np.allclose(sc, out, atol=1e-4, equal_nan=True):
                     bad[f"{shape},{dfreq:.3f},rescaled by {g0:g},{g1:g}"] = [float(np.nanmax(np.abs(sc - out)))]
+    # the shell labels of the FSC alignment score: floor(|f| * min(shape)), also on non-cubic boxes; the score is the mean of the per-shell FSC
+    from acryo.backend import Backend
+    from acryo.backend._fsc import _get_radial_label
+
+    for shape in [(8, 12, 10), (5, 4, 6), (6, 6, 6), (9, 7, 7)]:
+        lab = np.asarray(_get_radial_label(shape, Backend()))
+        fr = np.sqrt(sum(f ** 2 for f in np.meshgrid(*[np.fft.fftfreq(n) for n in shape], indexing="ij")))
+        want = np.floor(fr * min(shape) + 1e-9).astype(int)
+        if lab.shape != want.shape or (lab.astype(int) != want).any():
+            bad[f"radial labels {shape}"] = int((lab.astype(int) != want).sum()) if lab.shape == want.shape else "shape"
     return len(bad) > 0, {"problems": dict(list(bad.items())[:5]), "n": len(bad)}
 
 
